@@ -822,7 +822,30 @@ class Interp:
         return l
 
     def ev_GeneratorExp(self, e, env, fr, ctx):
-        return self.ev_ListComp(e, env, fr, ctx)
+        # lazy, as in Python: nothing is evaluated when the expression is created (only the outermost iterable), elements are
+        # produced when a consumer asks for them (next/any/all stop early)
+        from .sym import LazyList
+        self._comp_unordered = False
+        return LazyList(self.comprehension_iter(e.elt, e.generators, dict(env), fr, ctx))
+
+    def comprehension_iter(self, elt, gens, env, fr, ctx):
+        def rec(i, env2):
+            if i == len(gens):
+                yield self.ev(elt, env2, fr, ctx)
+                return
+            g = gens[i]
+            src = self.ev(g.iter, env2, fr, ctx)
+            for x in self.iterate(src, ctx):
+                env3 = dict(env2)
+                self.assign(g.target, x, env3, fr, ctx)
+                ok = True
+                for cond in g.ifs:
+                    if not ctx.branch(self.truth(self.ev(cond, env3, fr, ctx), ctx)):
+                        ok = False
+                        break
+                if ok:
+                    yield from rec(i + 1, env3)
+        return rec(0, env)
 
     def ev_DictComp(self, e, env, fr, ctx):
         d = PyDict()
